@@ -291,6 +291,11 @@ func (d *driver) relayLife(rounds int) {
 	d.keyMu.Unlock()
 	for i := 0; i < rounds; i++ {
 		var ris []*reqInfo
+		if d.rnd.Intn(2) == 0 {
+			// rebuild and cancel in one write: both are decoded before either goroutine runs
+			d.awaitAll(d.c.sendBatch([]string{"rebuild", "cancel"}, key))
+			continue
+		}
 		ris = append(ris, d.fire("rebuild", key))
 		if d.rnd.Intn(4) == 0 {
 			ris = append(ris, d.fire("rebuild", key))
@@ -486,7 +491,13 @@ func runSession(o sessionOpts, id int, seed int64, profile string) *session {
 		args = append(args, "--ping")
 	}
 	s.Args = args
-	env := append(os.Environ(), fmt.Sprintf("GOMAXPROCS=%d", []int{1, 2, 4, 8}[rnd.Intn(4)]))
+	procs := []int{1, 2, 4, 8}[rnd.Intn(4)]
+	if profile == "relay" && rnd.Intn(3) > 0 {
+		// one P: the goroutine of the packet decoded last runs first, which is
+		// the order the didGetCancel relay exists for
+		procs = 1
+	}
+	env := append(os.Environ(), fmt.Sprintf("GOMAXPROCS=%d", procs))
 	if o.race {
 		env = append(env, "GORACE=halt_on_error=1")
 	}
@@ -566,6 +577,14 @@ func runSession(o sessionOpts, id int, seed int64, profile string) *session {
 		select {
 		case <-c.readDone:
 			return true
+		default:
+		}
+		if wait <= 0 {
+			return false
+		}
+		select {
+		case <-c.readDone:
+			return true
 		case <-time.After(wait):
 			return false
 		}
@@ -577,7 +596,7 @@ func runSession(o sessionOpts, id int, seed int64, profile string) *session {
 	if !closed {
 		// a logical client is stuck although stdin is open: some request was
 		// not answered (or the process died: readDone)
-		if !exited(0) {
+		if !exited(50 * time.Millisecond) {
 			c.mu.Lock()
 			var open []string
 			for id, ri := range c.pending {
